@@ -4,8 +4,10 @@ package sched
 
 import (
 	"bytes"
+	"os"
 	"runtime"
 	"strconv"
+	"strings"
 	"sync"
 	"time"
 
@@ -50,6 +52,13 @@ func toKV(kv []any) KV {
 func Install(s *trace.Sink) {
 	mu.Lock()
 	sink = s
+	if evs := os.Getenv("VERIF_EVENTS"); evs != "" && Filter == nil {
+		allow := map[string]bool{}
+		for _, e := range strings.Split(evs, ",") {
+			allow[e] = true
+		}
+		Filter = func(p string) bool { return allow[p] }
+	}
 	mu.Unlock()
 	verifhook.SetHandler(handle)
 }
